@@ -17,7 +17,7 @@ EXPLANATION = (
 
 
 def check(ctx, run):
-    run.rules_run = ['R05.1', 'R05.2', 'R05.4', 'R05.5', 'R05.6', 'R05.7', 'R05.8', 'R05.9']
+    run.rules_run = ['R05.1', 'R05.2', 'R05.4', 'R05.5', 'R05.6', 'R05.7', 'R05.8', 'R05.9', 'R05.12']
     walkers.w_init(ctx, run, 'R05.1', floor=15)
     walkers.w_advance(ctx, run, 'R05.2', floor=24)
     accessors.r05_4(ctx, run)
@@ -30,4 +30,6 @@ def check(ctx, run):
     _bf = lambda p_: p_ in ('functions::get_by_keypath', 'functions::get_jentry_by_index', 'functions::type_of', 'functions::get_by_index', 'functions::get_jentry_by_name', 'functions::array_length')
     boundaries.check(ctx, run, 'R05.10', [p_ for p_ in sorted(boundaries.load_baseline() or {}) if _bf(p_)], 'an accessor rejects (returns None for) a position')
     accessors.name_variants_alike(ctx, run, 'R05.11', lambda p_: p_.startswith('functions::'))
+    from rules import layout as _layout
+    _layout.r01_2(ctx, run, rule='R05.12/R01.2')
     return report.finish(run, level='other', explanation=EXPLANATION, assumptions=["A1: documents are valid JSONB (the property's precondition)", "A2: no wrap of usize offsets"])
